@@ -126,6 +126,17 @@ Theorem C19_loop_break_refuted :
 Proof. exact loop_break_once. Qed.
 Print Assumptions C19_loop_break_refuted.
 
+(** Behaviour, refuted outside the loops: a line-breakpoint request makes SetBreakpoints generate
+    closures before Execute has linked the package-level variable declarations; the closures keep
+    the successors they captured, so the debugged program initialises only the first declaration
+    (the theorem [C19_same_behaviour_full] is about one and the same set of closures). *)
+Theorem C19_linebp_globals_refuted :
+  pl_visited (p_session replay_step 10 w_glob_plain) = [Some 0; Some 1]
+  /\ map snd (ses_heads (d_session replay_step w_glob 10 w_glob_linereq [])) = [Some 0]
+  /\ ses_status (d_session replay_step w_glob 10 w_glob_linereq []) = Returned.
+Proof. exact linebp_globals. Qed.
+Print Assumptions C19_linebp_globals_refuted.
+
 Theorem C19_statement_refuted : ~ C19_statement.
 Proof. exact statement_refuted. Qed.
 Print Assumptions C19_statement_refuted.
